@@ -28,6 +28,9 @@ pub const SACTS: &[SAct] = &[SAct::Insert, SAct::OrInsert, SAct::Remove, SAct::I
 
 #[derive(Clone, Copy, Debug, PartialEq, Eq, Hash, Serialize, Deserialize)]
 pub enum SetOp {
+    /// set algebra against the two-element set {id, id + 1}: kinds 0..=3 are `|=`, `&=`, `^=`, `-=` (clone elements
+    /// into / remove elements from the set), 4..=7 the forms `&a | &b` ... that build a new set
+    Algebra(u8, u8),
     /// unsafe insert_unique_unchecked - offered only for absent elements (its contract)
     InsertUniqueUnchecked(u8),
     Insert(u8),
@@ -344,6 +347,56 @@ impl SetHarness {
                     SAct::Get => drop(e),
                 }
             }
+            SetOp::Algebra(kind, id) => {
+                let id2 = (id + 1) % self.cfg.universe.max(1);
+                let mut other = Set::with_hasher_in(PlanBuild { alt: s.alt }, CheckAlloc);
+                let (t1, t2) = (s.tok(), s.tok());
+                other.insert(TKey::make(id, t1));
+                other.insert(TKey::make(id2, t2));
+                let o: Vec<(u8, u32)> = other.iter().map(|k| (k.id, k.tok)).collect();
+                let in_o = |x: u8| o.iter().any(|e| e.0 == x);
+                let in_s = |m: &Vec<(u8, u32)>, x: u8| m.iter().any(|e| e.0 == x);
+                // mathematical result as ids
+                let mut want: Vec<u8> = match kind % 4 {
+                    0 => s.model.iter().map(|e| e.0).chain(o.iter().map(|e| e.0).filter(|&x| !in_s(&s.model, x))).collect(),
+                    1 => s.model.iter().map(|e| e.0).filter(|&x| in_o(x)).collect(),
+                    2 => s.model.iter().map(|e| e.0).filter(|&x| !in_o(x)).chain(o.iter().map(|e| e.0).filter(|&x| !in_s(&s.model, x))).collect(),
+                    _ => s.model.iter().map(|e| e.0).filter(|&x| !in_o(x)).collect(),
+                };
+                want.sort_unstable();
+                if kind < 4 {
+                    match kind {
+                        0 => s.set |= &other,
+                        1 => s.set &= &other,
+                        2 => s.set ^= &other,
+                        _ => s.set -= &other,
+                    }
+                    let mut got: Vec<u8> = s.set.iter().map(|k| k.id).collect();
+                    got.sort_unstable();
+                    chk!(c, got == want, "assigning set operator {kind} with {{{id}, {id2}}}: left {:?}, mathematical result {:?}", got, want);
+                    // elements kept from the left operand are the stored ones; new ones are clones of the right operand's
+                    let old = std::mem::take(&mut s.model);
+                    s.model = s.set.iter().map(|k| (k.id, k.tok)).collect();
+                    for e in &s.model {
+                        let from_old = old.contains(e);
+                        let from_other = o.contains(e);
+                        chk!(c, from_old || from_other, "assigning set operator {kind}: element {:?} is neither a stored element nor a clone of the right operand's", e);
+                        chk!(c, !in_s(&old, e.0) || from_old, "assigning set operator {kind}: stored element with id {} was replaced", e.0);
+                    }
+                } else {
+                    let r: Set = match kind {
+                        4 => &s.set | &other,
+                        5 => &s.set & &other,
+                        6 => &s.set ^ &other,
+                        _ => &s.set - &other,
+                    };
+                    let mut got: Vec<u8> = r.iter().map(|k| k.id).collect();
+                    got.sort_unstable();
+                    chk!(c, got == want && r.len() == want.len(), "set operator {kind} with {{{id}, {id2}}}: result {:?}, mathematical result {:?}", got, want);
+                    drop(r);
+                }
+                drop(other);
+            }
             SetOp::Extend2(id) => {
                 let id2 = (id + 1) % self.cfg.universe.max(1);
                 let mut items = Vec::new();
@@ -471,6 +524,9 @@ impl Harness for SetHarness {
                     v.push(SetOp::Entry(id, a));
                 }
                 v.push(SetOp::Extend2(id));
+                for kind in 0..8u8 {
+                    v.push(SetOp::Algebra(kind, id));
+                }
             }
         }
         v.push(SetOp::Clear);
